@@ -28,11 +28,22 @@ RULE_E2E = (" End-to-end clause (harness/cmd/vh/c13e2e.go): the REAL methods of 
             "bad_server_salt, or both); every method with a Vector result with 0, 3 and 5000 elements x those ways of delivery; answers "
             "larger than one inflate window (32768 bytes) packed, for the Vector methods and a sample of the result types that have a "
             "string / bytes / vector to enlarge (thorough: all); the three hand-written wrappers around queries with object, Bool and "
-            "Vector results. The peer compares the request with the serialisation of the arguments made from the SCHEMA LINE of the "
+            "Vector results; a sample of the generated methods (thorough: all) called WHILE OTHER CALLS ARE UNDER WAY on the same client "
+            "(size token ~w / ~w1): another generated method's write is in progress (held in the transport's write hook, write lock taken), "
+            "the method under test has encoded its request and waits for the lock, a third generated method and the receive loop "
+            "(acknowledging new_session_created) encode meanwhile, with GOMAXPROCS unchanged and 1 - the peer must receive each of the "
+            "three requests exactly as the schema serialises that call's arguments plus well-formed acknowledgements, and every call "
+            "returns its own answer. The peer compares the request with the serialisation of the arguments made from the SCHEMA LINE of the "
             "function (own reader of schemes/api_latest.tl, own TL writer) and answers with a value of the declared result type built "
             "from the schema (smallest constructor; populated for short vectors). Judge: the call returns within the deadline, without "
             "panic or error, a value whose schema serialisation is the payload sent. The Lean driver answers these operations with the "
-            "line that says so (after checking that the method is a row of the regenerated method table).")
+            "line that says so (after checking that the method is a row of the regenerated method table). Flag groups "
+            "(harness/cmd/vh/c13groups.go, c13.e2e.grp): for every definition of the schema in which two or more parameters other than `true` "
+            "ones are conditional on ONE flag bit, calls in which the members of that group are zero / non-zero in every mix and order - "
+            "the function itself, a constructor placed inside the arguments of the method with the shortest chain to it, a constructor "
+            "placed inside the answer. Expected from the schema by a group-aware writer (c13groups_build.go): a set bit announces every "
+            "member, a zero-valued one is sent as its zero; a nil object inside a present group has no serialisation - the call must "
+            "return an error and send nothing. The Lean driver derives ok / refused from the regenerated schema table.")
 
 RULE = ("programs = rows of the regenerated tables: every definition of schemes/api_latest.tl and schemes/mtproto.tl "
         "(translator validated by printing each back to its source line; id = CRC-32 of the canonical line; parameter "
